@@ -117,10 +117,11 @@ struct S_map : public inner_op
   layout::loc m_ll;
   unsigned m_cnt[6];
   uint64_t m_out[6][VP_M];
+  bool m_keep;            // the id slot is TOS and stays: results are [.., id, out] (inputs of depth 1)
   bool m_scramble;        // also overwrite the slot below the result (a sub-expression that rearranges its copy of the stack)
   uint64_t m_junk;
 
-  S_map (layout &l, std::shared_ptr <op> upstream) : inner_op {upstream}, m_ll {l.reserve <state> ()}, m_scramble {false}, m_junk {0} {}
+  S_map (layout &l, std::shared_ptr <op> upstream) : inner_op {upstream}, m_ll {l.reserve <state> ()}, m_keep {false}, m_scramble {false}, m_junk {0} {}
   void configure (cfgdec &d, unsigned ninputs, unsigned maxcnt)
   {
     for (unsigned i = 0; i < 6; ++i)
@@ -145,11 +146,12 @@ struct S_map : public inner_op
               return nullptr;
             st.m_k = 0;
           }
-        uint64_t id = tok_at (*st.m_cur, 1);
+        uint64_t id = tok_at (*st.m_cur, m_keep ? 0 : 1);
         if (st.m_k < m_cnt[id])
           {
             auto r = std::make_unique <stack> (*st.m_cur);
-            r->pop ();
+            if (!m_keep)
+              r->pop ();
             if (m_scramble)
               r->push (std::make_unique <value_tok> (m_junk, 7));
             r->push (std::make_unique <value_tok> (m_out[id][st.m_k], st.m_k));
@@ -185,6 +187,8 @@ struct reslog
   unsigned n;
   uint64_t top[16];
   uint64_t below[16];
+  uint64_t third[16];
+  uint64_t fourth[16];
   unsigned depth[16];
   unsigned epoch[16];
   size_t pos[16];
@@ -197,6 +201,8 @@ struct reslog
         depth[n] = s.size ();
         top[n] = s.size () > 0 ? tok_at (s, 0) : 99;
         below[n] = s.size () > 1 ? tok_at (s, 1) : 99;
+        third[n] = s.size () > 2 ? tok_at (s, 2) : 99;
+        fourth[n] = s.size () > 3 ? tok_at (s, 3) : 99;
         pos[n] = s.size () > 0 ? s.get (0).get_pos () : 99;
         epoch[n] = ep;
         ++n;
